@@ -106,6 +106,7 @@ class Consumer:
         self.pos = None
         self.assigned = None
         self.closed = False
+        self.consumed = False
 
     # --- used by FromKafkaBatched ---------------------------------------
     def poll(self, timeout=None):
@@ -124,6 +125,7 @@ class Consumer:
         if off < b.high(p):
             k, v = b.logs[p][off]
             self.assigned = (p, off + 1)
+            self.consumed = True
             return _Msg(p, off, k, v)
         return None
 
@@ -189,6 +191,12 @@ class Consumer:
         pass
 
     def close(self):
+        # librdkafka's auto-commit: a consumer configured with enable.auto.commit commits the position it
+        # has consumed up to, at the latest when it is closed
+        if not self.closed and self.consumed and str(self.params.get('enable.auto.commit', 'true')).lower() == 'true':
+            p, pos = self.assigned
+            ENV['rec'].rec('auto_commit', p, pos)
+            _apply_commit(ENV['broker'], (self.group, p, pos))
         self.closed = True
 
 
@@ -318,6 +326,9 @@ def run_incarnation(sc, broker, inc, t0, crash_at, pending_msgs):
         params = {'bootstrap.servers': 'fake', 'group.id': 'g'}
         if sc.get('reset'):
             params['auto.offset.reset'] = sc['reset']
+        if sc.get('user_auto_commit') is not None:
+            # a configuration shared with other Kafka clients: the source must still do its own checkpointing
+            params['enable.auto.commit'] = sc['user_auto_commit']
         stream = Stream.from_kafka_batched('t', params, poll_interval=sc['poll'], npartitions=sc.get('npartitions'),
                                            refresh_partitions=sc.get('refresh', False),
                                            max_batch_size=sc['max_batch'], keys=sc.get('keys', False),
@@ -476,6 +487,12 @@ def judge(sc, incs, broker):
             if e[2] == 'watermark':
                 wm_highs.setdefault(e[3], []).append(e[5])
                 continue
+            if e[2] == 'auto_commit':
+                V.append(Violation('C09', 'C09.early_commit', e[0],
+                                   'incarnation %d: the client library auto-committed offset %d of partition %d when the consumer that fetched '
+                                   'the batch was closed (enable.auto.commit reached it as true) - before the batch was processed' % (i, e[4], e[3]),
+                                   node_op='from_kafka_batched'))
+                return V
             if e[2] in ('task_exc', 'bg_exc') and any('injected' in str(x) for x in e[3:]):
                 continue        # the transient fetch failure we injected surfaces in the (un-awaited) emit coroutine
             if e[2] in ('task_exc', 'bg_exc', 'hang'):
@@ -770,6 +787,7 @@ def generate(prop, rng, seed, index, tier):
     maxlat = max([x or 0 for x in lat] + [0])
     sc = {'format': 1, 'family': 'kafka', 'property': 'C09', 'seed': seed, 'index': index,
           'partitions': nparts, 'npartitions': npartitions, 'refresh': refresh, 'reset': reset,
+          'user_auto_commit': rng.choice(['true', True, 'false']) if rng.random() < 0.15 else None,
           'max_batch': rng.choice([1, 2, 3, 5, 10000]), 'keys': rng.random() < 0.2,
           'poll': rng.choice([0.5, 1, 2]), 'pre': pre, 'messages': msgs, 'precommitted': precommitted,
           'faults': faults, 'graph': graph, 'crashes': [], 'pre_truncate': pre_truncate,
